@@ -649,16 +649,21 @@ theorem C14_cache_key_injective (h1 h2 s1 s2 : Str) (v1 : headerOK h1 = true) (v
 
 example : cacheKey [] ("secret:SELECT 1".toList) ≠ cacheKey "secret".toList "SELECT 1".toList := by decide
 
-/-- OPEN (found 2026-09-22, repair proposed in corpus/C14/fix-13): statement kinds that take a table reference
-without the FROM keyword. `TABLE '<path>'` is accepted by the validator (token level AND byte level: table
-position is armed only after FROM / JOIN / a cross-join comma), yields no reference, and - containing neither
-`from` nor `join` - is executed untransformed; DuckDB resolves the string as a replacement scan. -/
-theorem C14_statement_kind_witness :
-    acceptedTok [.word "TABLE".toList, .str "/r/secret/cpu/f.parquet".toList] = true ∧
-    acceptedTok [.word "SUMMARIZE".toList, .str "/r/secret/cpu/f.parquet".toList] = true ∧
-    acceptedTok [.word "PIVOT".toList, .str "/r/secret/cpu/f.parquet".toList, .word "ON".toList, .word "host".toList] = true ∧
-    (let s := "TABLE '/r/secret/cpu/f.parquet'".toList
-     validate s = .ok ∧ refsChecked strWorld s [] = [] ∧ shortCircuit strWorld s = true ∧ inK s [] = true) := by
+/-- dc0b275 (HISTORY: `TABLE '<path>'`, `SUMMARIZE '<path>'`, `PIVOT '<path>' ON …` … were accepted, yielded no
+reference and - containing neither `from` nor `join` - ran untransformed as replacement scans): the statement
+kinds that take a table reference without FROM (regenerated lists) arm table position wherever a statement can
+start; a column called `show` or `ORDER BY v DESC, 'c'` is unaffected. Token level and byte level. -/
+theorem C14_statement_kind_fixed :
+    acceptedTok [.word "TABLE".toList, .str "/r/secret/cpu/f.parquet".toList] = false ∧
+    acceptedTok [.word "SUMMARIZE".toList, .word "TABLE".toList, .str "/r/secret/cpu/f.parquet".toList] = false ∧
+    acceptedTok [.word "with".toList, .word "w".toList, .word "as".toList, .lparen, .word "table".toList,
+                 .qident "/r/secret/cpu/f.parquet".toList, .rparen, .word "select".toList, .other '*', .word "from".toList, .word "w".toList] = false ∧
+    acceptedTok [.word "select".toList, .word "show".toList, .comma, .str "c".toList, .word "from".toList, .word "cpu".toList,
+                 .word "order".toList, .word "by".toList, .word "v".toList, .word "desc".toList, .comma, .str "c".toList] = true ∧
+    ["TABLE '/r/secret/cpu/f.parquet'", "SUMMARIZE '/r/secret/cpu/f.parquet'", "DESC '/r/secret/cpu/f.parquet'",
+     "PIVOT '/r/secret/cpu/f.parquet' ON canary USING count(*)", "EXPLAIN ANALYZE TABLE '/r/secret/cpu/f.parquet'",
+     "SELECT canary FROM (TABLE '/r/secret/cpu/f.parquet') t"].all (fun s => validate s.toList == .strtab) = true ∧
+    validate "SELECT show, 'c' FROM cpu ORDER BY v DESC, 'c'".toList = .ok := by
   decide +kernel
 
 /-! ## composition -/
